@@ -698,13 +698,10 @@ impl Token {
         output: &mut W,
     ) -> io::Result<stream::Parser<'a>> {
         use futures_util::{AsyncReadExt, AsyncWriteExt};
+        // The buffer may already hold records left over from the previous
+        // request, so parse those before waiting for new input.
+        let mut read = 0;
         loop {
-            let read = input.read(parser.input_buffer()).await?;
-            if read == 0 {
-                // Client-initiated connection shutdown
-                return Err(io::ErrorKind::ConnectionReset.into());
-            }
-
             let status = parser.parse(read);
             if !status.output.is_empty() {
                 output.write_all(status.output).await?;
@@ -712,6 +709,12 @@ impl Token {
             }
             if status.done {
                 return parser.into_stream_parser().map_err(Into::into);
+            }
+
+            read = input.read(parser.input_buffer()).await?;
+            if read == 0 {
+                // Client-initiated connection shutdown
+                return Err(io::ErrorKind::ConnectionReset.into());
             }
         }
     }
